@@ -334,10 +334,20 @@ func (r *c04Run) query() ch.Query {
 	q := ch.Query{Body: "SELECT v FROM t", QueryID: "c04"}
 	q.OnProgress = func(ctx context.Context, p proto.Progress) error { return r.rcallback() }
 	q.OnProfile = func(ctx context.Context, p proto.Profile) error { return r.rcallback() }
-	if sc.kind == "sel" {
+	if sc.kind == "sel" || sc.kind == "selx" {
 		var got proto.ColUInt8
 		q.Result = proto.Results{{Name: "v", Data: &got}}
 		q.OnResult = func(ctx context.Context, b proto.Block) error { return r.rcallback() }
+		if sc.kind == "selx" {
+			// external data that cannot be encoded (a value that is not a member of the enum): sendQuery itself fails,
+			// after the Query packet has been encoded into the writer
+			e := new(proto.ColEnum)
+			_ = e.Infer("Enum8('a' = 1, 'b' = 2)")
+			e.Append("a")
+			e.Append("no-such-member")
+			q.ExternalTable = "ext"
+			q.ExternalData = proto.Input{{Name: "e", Data: e}}
+		}
 		return q
 	}
 	q.Body = "INSERT INTO t VALUES"
